@@ -371,7 +371,9 @@ class HeapBalancerSink(LoadBalancerSink):
     """Close the sink and all underlying nodes immediately."""
     super(HeapBalancerSink, self).Close()
     self._open = False
-    [n.channel.Close() for n in self._heap]
+    # Closing a channel completes its in-flight requests, which re-orders the
+    # heap, so iterate over a copy.
+    [n.channel.Close() for n in list(self._heap)]
 
   @property
   def state(self):
